@@ -165,6 +165,8 @@ def main(argv):
     for name in meta.get('require_counters', {}).get(tier, meta.get('require_counters', {}).get('any', [])):
         if not problems and counters.get(name, 0) <= 0:
             problems.append('inconclusive: required counter %s stayed at zero' % name)
+    if not samples and not problems:
+        problems.append('inconclusive: the check recorded no sample case (res.sample)')
     known = load_known(prop)
     new_violations = 0
     known_hits = 0
